@@ -140,3 +140,41 @@ func VerifC01_Default_Simple() { verifC01Body(0) }
 //
 //verif:harness property=C01 theory=bv tier=quick maxpaths=20000
 func VerifC01_Default_Precise() { verifC01Body(1) }
+
+// VerifC01_Default_ConcurrentAcquiresAtomic / VerifC01_Precise_ConcurrentAtomic: predictive atomicity
+// analysis (engine option atomic=only): the admission decision is one atomic read-modify-write of
+// the in-flight counter - for the DefaultLimiter over the simple strategy (whose load-compare-add is
+// only atomic because the limiter mutex is held around it) and over the precise strategy, and for
+// the precise strategy used directly: no schedule lets another thread's update of the counter fall
+// between the read a decision is based on and the write that records it.
+//
+//verif:harness property=C01 theory=bv tier=quick race=1 atomic=only maxpasses=4 unwind=3 unwindcut=1 clock=frozen timeout=20
+func VerifC01_Default_ConcurrentAcquiresAtomic() {
+	kind := verif.Choice("strategy", 2)
+	l, _, _, _ := verifC01Limiter(kind, 3, 3, 1)
+	verif.Spawn("a1", func() { l.Acquire(context.Background()) })
+	verif.Spawn("a2", func() { l.Acquire(context.Background()) })
+	verif.Parallel()
+	verif.Reach("end")
+}
+
+//verif:harness property=C01 theory=bv tier=quick race=1 atomic=only maxpasses=4 unwind=3 unwindcut=1 clock=frozen timeout=20
+func VerifC01_Precise_ConcurrentAtomic() {
+	st := strategy.NewPreciseStrategy(3)
+	tok, ok := st.TryAcquire(context.Background())
+	verif.Assert("setup-token", ok)
+	second := verif.Choice("second", 3)
+	verif.Spawn("a1", func() { st.TryAcquire(context.Background()) })
+	verif.Spawn("t2", func() {
+		switch second {
+		case 0:
+			st.TryAcquire(context.Background())
+		case 1:
+			tok.Release()
+		default:
+			st.SetLimit(2)
+		}
+	})
+	verif.Parallel()
+	verif.Reach("end")
+}
